@@ -49,7 +49,7 @@ pub fn meta() -> CheckMeta {
             "dft convention: entry k is the value at exp(+2 pi i k/N), N = smallest power of two >= size; only sizes >= coefficient count are used".into(),
         ],
         exhaustive: false,
-        stuck_is_violation: false,
+        stuck_is_violation: true,
     }
 }
 
@@ -853,6 +853,68 @@ fn run_assign_chain<N: Sc>(rep: &mut Report, rng: &mut Rng) {
     rep.nontrivial(h.0);
 }
 
+// ------------------------------------------------------------------ products that vanish entirely
+
+/// One operand is a zero polynomial that still stores several coefficients (a cancellation result
+/// `&p - &p`, or exact zeros collected), the other a generic polynomial with >= 3 coefficients, so
+/// that the product takes the FFT path and every coefficient of the result is within tolerance.
+/// The result must be a usable zero polynomial: order() and the accessors do not panic, every
+/// coefficient reads 0 (up to the zero tolerance), it evaluates to 0 and is neutral in a sum.
+fn run_vanishing_product<N: Sc>(rep: &mut Report, rng: &mut Rng) {
+    let lz = 3 + rng.below(7);
+    let lq = 3 + rng.below(30);
+    let q: Vec<C64> = (0..lq).map(|_| if N::COMPLEX { C64::new(rng.r(-2.0, 2.0), rng.r(-2.0, 2.0)) } else { C64::new(rng.r(-2.0, 2.0), 0.0) }).collect();
+    let pq: Polynomial<N> = build::<N>(&q, None, rng.bool());
+    let how = rng.below(2);
+    let zero_side_left = rng.bool();
+    rep.eval();
+    rep.count(&format!("{}/vanishing_products", N::NAME), 1);
+    let case = || J::obj().set("field", N::NAME).set("zero_operand", if how == 0 { "&p - &p" } else { "exact zeros collected" }).set("zero_operand_stored_coefficients", lz as u64).set("zero_operand_is", if zero_side_left { "left" } else { "right" }).set("other", pj(N::COMPLEX, &q));
+    let x = N::from_c(C64::new(rng.r(-1.0, 1.0), if N::COMPLEX { rng.r(-1.0, 1.0) } else { 0.0 }));
+    let qc = q.clone();
+    let r = guard(move || -> Result<(), String> {
+        let z: Polynomial<N> = if how == 0 {
+            let p: Polynomial<N> = build::<N>(&(0..lz).map(|k| C64::new(1.0 + k as f64, 0.0)).collect::<Vec<_>>(), None, false);
+            &p - &p
+        } else {
+            (0..lz).map(|_| N::from_c(C64::new(0.0, 0.0))).collect()
+        };
+        let prod = if zero_side_left { &z * &pq } else { &pq * &z };
+        let order = prod.order();
+        if order > lz + lq {
+            return Err(format!("order() of the vanishing product is {}", order));
+        }
+        for k in 0..lz + lq + 2 {
+            let c = prod.get_coefficient(k).to_c();
+            if !(c.norm() <= 1e-9) {
+                return Err(format!("coefficient of x^{} is {:e}{:+e}i", k, c.re, c.im));
+            }
+        }
+        let v = prod.evaluate(x).to_c();
+        if !(v.norm() <= 1e-8) {
+            return Err(format!("evaluates to {:e}{:+e}i", v.re, v.im));
+        }
+        let sum = &prod + &pq;
+        for (k, want) in qc.iter().enumerate() {
+            let c = sum.get_coefficient(k).to_c();
+            if !((c - want).norm() <= 1e-9) {
+                return Err(format!("(a*b) + q: coefficient of x^{} is {:e}{:+e}i, q has {:e}{:+e}i", k, c.re, c.im, want.re, want.im));
+            }
+        }
+        let all = prod.get_coefficients();
+        if all.is_empty() {
+            return Err("get_coefficients() of the vanishing product is empty".into());
+        }
+        Ok(())
+    });
+    match r {
+        Guarded::Ok(Ok(())) => rep.nontrivial(hash_poly(CaseHash::new("c11-vanish").u(N::COMPLEX as u64).u(lz as u64).u(how as u64), &q).0),
+        Guarded::Ok(Err(e)) => rep.violation("vanishing-product/not-the-zero-polynomial", case(), e),
+        Guarded::Panic(m, l) => rep.violation("vanishing-product/panic", case(), format!("using a product that vanishes entirely panicked: '{}' at {}", m, l)),
+        Guarded::Budget => {}
+    }
+}
+
 // ------------------------------------------------------------------ stages
 
 pub fn stages(ctx: &Ctx) -> Vec<Stage> {
@@ -946,6 +1008,14 @@ pub fn stages(ctx: &Ctx) -> Vec<Stage> {
             run_assign_chain::<C64>(rep, &mut rng);
         }
     }));
+    st.push(Stage::new("vanishing-products", tier.pick(2_000, 40_000), move |i, rep| {
+        let mut rng = Rng::for_case(seed, "c11-vanishing", i);
+        if i % 2 == 0 {
+            run_vanishing_product::<f64>(rep, &mut rng);
+        } else {
+            run_vanishing_product::<C64>(rep, &mut rng);
+        }
+    }));
     st.push(Stage::new("f32-pairs", tier.pick(4_000, 60_000), move |i, rep| {
         let mut rng = Rng::for_case(seed, "c11-f32", i);
         run_f32_pair(rep, &mut rng);
@@ -957,6 +1027,7 @@ pub fn thresholds(ctx: &Ctx, rep: &Report) -> Vec<Threshold> {
     let mut t = vec![];
     let q = |a: f64, b: f64| ctx.tier.pick(a, b);
     for fld in ["f64", "c64"] {
+        t.push(Threshold { what: format!("FFT products that vanish entirely ({})", fld), required: q(800.0, 16_000.0), observed: rep.counter(&format!("{}/vanishing_products", fld)) as f64 });
         t.push(Threshold { what: format!("chains of assigning operators ({})", fld), required: q(2_000.0, 30_000.0), observed: rep.counter(&format!("{}/assign_chains", fld)) as f64 });
         t.push(Threshold { what: format!("in-place FFT products after an operand with a coarse tolerance was absorbed ({})", fld), required: q(400.0, 6_000.0), observed: rep.counter(&format!("{}/assign_chain_fft_products_after_a_coarse_operand", fld)) as f64 });
         t.push(Threshold { what: format!("operand pairs multiplied through the FFT path ({})", fld), required: q(1_500.0, 60_000.0), observed: rep.counter(&format!("mul/fft/{}", fld)) as f64 });
